@@ -36,3 +36,35 @@ void h_predicates(void) {
   VF_ASSERT(!(infeas && unb), "infeasible excludes unbounded");
   VF_WITNESS();
 }
+
+/* ---- final report to AMPL: the objective appears in the solve message, and reaches the solution handler, exactly for the codes that
+ * carry a (feasible) solution: solved 0-99, unbounded-with-solution 300-349, limit-with-solution 400-449 ---- */
+static u32 n_obj_fragments, n_handle; static u32 h_code; static double h_obj;
+static int has_sub(const char *s, const char *w) { for (u32 i = 0; i < 64; i++) { if (!s[i]) return 0; u32 k = 0; for (; k < 12; k++) { if (!w[k]) return 1; if (s[i + k] != w[k]) break; } if (!w[k]) return 1; } return 0; }
+#ifndef VF_REAL
+/* {fmt} format-string interpreter: the harness only notes which message fragments are written */
+void _ZN3fmt14BasicFormatterIcNS_12ArgFormatterIcEEE6formatENS_15BasicCStringRefIcEE(char *self, char *fmt) { if (has_sub(fmt, "objective {}")) n_obj_fragments++; }
+/* BasicSolver::FormatObjValue (solver.cc): {value, precision} */
+vf_ret__ZN2mp11BasicSolver14FormatObjValueEd _ZN2mp11BasicSolver14FormatObjValueEd(char *self, vf_f64 v) { vf_ret__ZN2mp11BasicSolver14FormatObjValueEd r; r.f0 = v; r.f1 = 15; return r; }
+/* BasicSolver::GetWarnings (solver.cc): no warnings */
+void _ZNK2mp11BasicSolver11GetWarningsB5cxx11Ev(char *ret, char *self) { *(char **)ret = ret + 16; *(u64 *)(ret + 8) = 0; ret[16] = 0; }
+#endif
+void vf_handle_solution(u32 status, double objv) { n_handle++; h_code = status; h_obj = objv; }
+void h_report(void) {
+  u32 code = vf_nd32(); u32 nobj = (u32)vf_ndrange(0, 2); double obj0 = vf_nddouble(); VF_REQUIRE(!VF_ISNAN(obj0));
+  VF_REQUIRE(w_sizeof() <= sizeof objp);
+  for (unsigned i = 0; i < sizeof objp; i++) obj[i] = 0;      /* all options off, no extra messages, no alternative solutions */
+  char *o = mkobj(code);
+  n_obj_fragments = 0; n_handle = 0;
+  u32 rc = w_report(o, nobj, obj0);
+  VF_OBS(rc); VF_OBS(n_obj_fragments); VF_OBS(n_handle);
+  VF_ASSERT(rc == 0, "no exception");
+  int with_sol = IN(code, 0, 99) || IN(code, 300, 349) || IN(code, 400, 449);
+  VF_ASSERT(n_handle == 1 && h_code == code, "the solve code handed to the solution handler is the backend's code");
+#ifndef VF_REAL
+  VF_ASSERT((n_obj_fragments > 0) == (with_sol && nobj > 0), "objective value appears in the solve message iff the code carries a solution and an objective value exists");
+#endif
+  if (with_sol && nobj == 1) VF_ASSERT(vf_d2bits(h_obj) == vf_d2bits(obj0), "objective value handed on with the solution");
+  if (!with_sol || nobj == 0) VF_ASSERT(VF_ISNAN(h_obj), "no objective value (NaN) handed on when none is reported");
+  VF_WITNESS();
+}
